@@ -713,6 +713,14 @@ class Interp(object):
                 return r
         if len(self.frames) > self.max_depth:
             raise Undecided('call depth exceeded at %s' % spec)
+        if self.policy is not None and any(fr.func.spec == spec for fr in self.frames):
+            lim = self.policy.recursion_limit(self, spec)
+            if lim is not None and sum(1 for fr in self.frames if fr.func.spec == spec) >= lim:
+                # a recursive helper that has no contract: its inner calls are not executed; the effects are unknown (recorded, the task reports them)
+                if not hasattr(ctx, 'unknown_effects'):
+                    ctx.unknown_effects = []
+                ctx.unknown_effects.append(spec)
+                return Opaque(ctx.fresh('result_of_uncontracted_recursive_call'), sort=None)
         self.called.add(spec)
         node = f.node
         env = Env(f.closure, f)
@@ -1523,6 +1531,9 @@ class Policy(object):
         pass
 
     def while_loop(self, interp, s, env, n):
+        return None
+
+    def recursion_limit(self, interp, spec):
         return None
 
     def loop_scheme(self, interp, loop_id, s):
